@@ -9,7 +9,8 @@ Import ListNotations.
 From GM Require Import Base.Topic Base.Msg Model.TopicMatch Model.CodecBase Model.CodecProps Model.CodecPackets
   Model.CodecSpec Oracle.C06O
   Proofs.CodecBaseP Proofs.CodecStrP Proofs.CodecTotalP Proofs.CodecSizeP Proofs.CodecPropsP Proofs.CodecPropsInvP
-  Proofs.CodecRoundP Proofs.CodecReencP Proofs.CodecTopicP.
+  Proofs.CodecWillP Proofs.CodecRoundP Proofs.CodecReencP Proofs.CodecRound2P Proofs.CodecConnectP Proofs.CodecReencAllP
+  Proofs.CodecTopicP Proofs.CodecMsgP.
 Open Scope N_scope.
 
 (* ---- totality: for every version and every byte sequence ReadPacket returns a packet or an
@@ -57,7 +58,7 @@ Print Assumptions C06_alloc_refuted.
    the decoder allocate more than the input holds *)
 Theorem C06_alloc_partial :
   forall (v : N) (bs : list N),
-    (kf_alloc_upfront v bs = false -> model_stream_alloc 4 v bs <= 64 * len bs + 4096) /\
+    (kf_alloc_upfront v bs = false -> model_stream_alloc 4 v bs <= len bs) /\
     (forall p rest, read_packet v bs = Ok (p, rest) -> read_alloc v bs <= len bs) /\
     (read_alloc v bs = 0 \/
      exists first r rl r1, bs = first :: r /\ read_varint r = Ok (rl, r1) /\ read_alloc v bs = rl).
@@ -103,18 +104,30 @@ Proof.
 Qed.
 Print Assumptions C06_props.
 
-(* ---- re-encoding: every packet ReadPacket accepts (from bytes < 256, under v3.1, v3.1.1 or v5)
-   is re-encoded by Pack to bytes that ReadPacket decodes completely, to a packet equal in
-   every field; p' == p is equality of everything but the cached FixHeader (p_body).
-   Packet types: all but CONNECT, SUBSCRIBE, UNSUBSCRIBE (simple_body). *)
-Theorem C06_reencode :
-  forall (v : N) (bs : list N) (p : packet) (rest : list N),
+(* ---- re-encoding.  reencodes v bs: if ReadPacket accepts a packet p from bs, then whatever Pack
+   writes for p, ReadPacket decodes completely, to a packet p' equal to p in every field
+   (p' == p is equality of p_body: everything but the cached FixHeader).
+   As stated this is false: *)
+Theorem C06_reencode_refuted :
+  (exists v bs, bytes_ok bs /\ ~ reencodes v bs) /\ ~ reencodes 4 connect_wq3.
+Proof. exact (conj reencode_refuted reencode_refuted_willqos). Qed.
+Print Assumptions C06_reencode_refuted.
+(* it holds for all fifteen packet types under v3.1, v3.1.1 and v5 on every input (bytes < 256)
+   outside the two known findings (CONNECT with protocol level 3; Will QoS 3) *)
+Theorem C06_reencode_partial :
+  forall (v : N) (bs : list N),
     (v = 3 \/ v = 4 \/ v = 5) -> bytes_ok bs ->
-    read_packet v bs = Ok (p, rest) -> simple_body (p_body p) = true ->
-    forall bs', pack (p_body p) = Ok bs' ->
-    exists p', read_packet v bs' = Ok (p', []) /\ p_body p' = p_body p.
-Proof. exact reencode_simple. Qed.
-Print Assumptions C06_reencode.
+    kf_connect_v31_pack v bs = false -> kf_will_qos3 v bs = false ->
+    reencodes v bs.
+Proof. exact reencode_partial. Qed.
+Print Assumptions C06_reencode_partial.
+(* what the decoder guarantees about every packet it returns (field ranges, valid strings and
+   topics, sorted duplicate-free whitelisted properties): the invariant the round trip rests on *)
+Theorem C06_decoded_invariant :
+  forall (v : N) (bs : list N) (p : packet) (rest : list N),
+    read_packet v bs = Ok (p, rest) -> bytes_ok bs -> dec_inv_all v (p_body p).
+Proof. exact read_packet_inv. Qed.
+Print Assumptions C06_decoded_invariant.
 
 (* ---- sizes: after Pack, TotalBytes is the number of bytes written *)
 Theorem C06_size :
@@ -122,6 +135,14 @@ Theorem C06_size :
     pack_full b = Ok (bs, fh) -> total_bytes {| p_fh := Some fh; p_body := b |} = len bs.
 Proof. exact total_bytes_pack. Qed.
 Print Assumptions C06_size.
+
+(* Message.TotalBytes(version) is the number of bytes Pack writes for MessageToPublish(msg, version),
+   whenever Pack succeeds (QoS 0..2) *)
+Theorem C06_msg_size :
+  forall (v : N) (m : msg) (bs : list N) (fh : fixhdr),
+    m_qos m <= 2 -> pack_full (message_to_publish m v) = Ok (bs, fh) -> msg_total_bytes (v =? 5) m = len bs.
+Proof. exact msg_total_bytes_pack. Qed.
+Print Assumptions C06_msg_size.
 
 (* ---- topic names and filters.  The equivalences with MQTT 4.7 / 1.5.4 are false today: *)
 Theorem C06_topics_refuted :
